@@ -11,6 +11,9 @@ class TorchWrapper(KDDataset):
         self.mode = mode
 
     def __getattr__(self, item):
+        if item == "dataset":
+            # not set yet (e.g. while unpickling/copying) -> avoid infinite recursion via self.dataset
+            return getattr(super(), item)
         if item.startswith("getitem_"):
             item = item[len("getitem_"):]
             assert ModeWrapper.has_item(mode=self.mode, item=item)
